@@ -351,10 +351,11 @@ end Scrollbar
 
 The Builder is any list `hs` of widget heights (`nil` past its end); in a history the application
 may replace it at any point (`HOp.items`) without telling `Dynamic`.  `DynList.genFacts` carries the
-regenerated facts that the five repairs are present in the source: the cursor-gutter guard (F119),
+regenerated facts that six repairs are present in the source: the cursor-gutter guard (F119),
 the stop condition of `insertChildren` (F119f), the walk back to an existing top widget at the
 start of `Draw` (F119b), the gap counted by the upward-scroll code and the re-anchoring loop
-(F119c), and the wants-cursor block revealing a widget above the viewport (F119d).  The sixth
+(F119c), the wants-cursor block revealing a widget above the viewport (F119d), and the child index
+compared as a `uint` (F119h).  The seventh
 repair (F119g: `ensureScroll` drops a pending scroll when it moves the top to the cursor) is part
 of `DynList.ensureScroll` itself, which `Props/C19Tie.lean` proves equal to the regenerated
 syntax of the method, interpreted. -/
@@ -362,7 +363,7 @@ syntax of the method, interpreted. -/
 section Dyn
 open VaxisModel.Model.DynList VaxisModel.Lemmas.DynList
 
-/-- The source carries all five repairs. -/
+/-- The source carries all six repairs. -/
 theorem dyn_repairs_present : genFacts = Facts.fixed := by decide
 
 /-- **Layout — every gap, every state.**  Every `Draw`, from ANY scroll state (cursor, top, offset,
@@ -397,21 +398,23 @@ example : (match draw Facts.fixed ⟨1, false⟩ [2, 3, 1] ⟨1, 1, 0, -2, false
     | .error _ => false) = true := by decide
 
 /-- **No panic with 0 items** — for a Builder that has no widgets, every history of
-    SetCursor/NextItem/PrevItem/wheel/SetPendingScroll/Draw (cursors below 2^63, bounded draw
-    contexts, ANY gap even negative, with or without the cursor gutter) runs without panic. -/
+    SetCursor/NextItem/PrevItem/wheel/SetPendingScroll/Draw (ANY cursor a `uint` can hold — e.g.
+    `SetCursor(uint(len(items)-1))` = 2^64−1 on the empty list —, bounded draw contexts, ANY gap
+    even negative, with or without the cursor gutter) runs without panic. -/
 theorem dyn_no_panic_empty (cfg : Cfg) (ops : List Op) (ho : ∀ op ∈ ops, OpOk op) :
     ∃ s, run genFacts cfg [] init ops = .ok s :=
-  let ⟨s, he, _⟩ := run_empty _ cfg ops init ⟨rfl, by decide⟩ ho
+  let ⟨s, he, _⟩ := run_empty _ (by rw [dyn_repairs_present]; rfl) cfg ops init ⟨rfl, by unfold U; decide⟩ ho
   ⟨s, he⟩
 
 /-- **No panic — all histories, all gaps ≥ 0, items replaced at will.**  For every initial builder
     and every history of SetCursor/NextItem/PrevItem/wheel/SetPendingScroll/Draw interleaved with
     replacements of the Builder's items by any other list (more, fewer, other heights, none), with
-    or without the cursor gutter, any viewport sizes including 0 rows (cursors below 2^63, bounded
-    draw contexts, fewer than 2^63 items): nothing panics and the indices stay sane. -/
+    or without the cursor gutter, any viewport sizes including 0 rows (ANY `uint` cursor passed to
+    SetCursor, bounded draw contexts, fewer than 2^63 items): nothing panics, the top index stays
+    below 2^63, and a pending wants-cursor request has `top ≤ cursor`. -/
 theorem dyn_no_panic (cfg : Cfg) (hgap : 0 ≤ cfg.gap) (hs : List Nat) (hlen : hs.length < 2 ^ 63)
     (ops : List HOp) (ho : ∀ op ∈ ops, HOpOk op) :
-    ∃ hs' s, runH genFacts cfg hs init ops = .ok (hs', s) ∧ s.top < 2 ^ 63 ∧ s.cursor < 2 ^ 63 ∧
+    ∃ hs' s, runH genFacts cfg hs init ops = .ok (hs', s) ∧ s.top < 2 ^ 63 ∧ s.cursor < U ∧
       (s.wantsCursor = true → s.top ≤ s.cursor) := by
   rw [dyn_repairs_present]
   obtain ⟨hs', s, he, hi, _⟩ := runH_inv cfg hgap ops hs init hlen init_inv ho
@@ -422,7 +425,7 @@ theorem dyn_no_panic (cfg : Cfg) (hgap : 0 ≤ cfg.gap) (hs : List Nat) (hlen : 
     has now; and over histories with a fixed builder it is so at every point. -/
 theorem dyn_top_valid (cfg : Cfg) (hgap : 0 ≤ cfg.gap) (hs : List Nat) (hlen : hs.length < 2 ^ 63)
     (ops : List Op) (ho : ∀ op ∈ ops, OpOk op) :
-    ∃ s, run genFacts cfg hs init ops = .ok s ∧ (s.top = 0 ∨ s.top < hs.length) ∧ s.cursor < 2 ^ 63 := by
+    ∃ s, run genFacts cfg hs init ops = .ok s ∧ (s.top = 0 ∨ s.top < hs.length) ∧ s.cursor < U := by
   rw [dyn_repairs_present]
   obtain ⟨s, he, hi, ht⟩ := run_inv_top cfg hgap hs hlen ops init init_inv (Or.inl rfl) ho
   exact ⟨s, he, ht, hi.cur_ok⟩
@@ -448,7 +451,7 @@ theorem dyn_anchor (cfg : Cfg) (hgap : 0 ≤ cfg.gap) (hs0 : List Nat) (hlen0 : 
 
 /-- **NextItem / PrevItem keep the selection on an existing item** — whenever they move the cursor
     (return a command) the new cursor is the index of an item the Builder has. -/
-theorem dyn_next_prev_in_range (hs : List Nat) (s s1 : St) (hcu : s.cursor < 2 ^ 63)
+theorem dyn_next_prev_in_range (hs : List Nat) (s s1 : St) (hcu : s.cursor < U)
     (hmove : (nextItem hs s = (s1, true)) ∨ (prevItem hs s = (s1, true))) : s1.cursor < hs.length := by
   obtain ⟨c, hc, _, e2⟩ := next_prev_cases hs s s1 hcu hmove
   rw [e2]; exact hc
@@ -517,7 +520,7 @@ theorem dyn_selected_on_top (cfg : Cfg) (hgap : 0 ≤ cfg.gap) (hs0 : List Nat) 
     obtain ⟨_, s1, he, hi, _⟩ := runH_inv cfg hgap ops hs0 init hlen0 init_inv ho
     rw [hrun'] at he; cases he
     have hcn : c < hs.length := getElem?_lt hcur
-    have := (ensureScroll_inv s c hi.top_ok (by omega)).top_ok
+    have := (ensureScroll_inv s c hi.top_ok (by unfold U; omega)).top_ok
     unfold U; unfold setCursor; omega
   have hlay := (dyn_layout cfg hs (setCursor s c) W H s' cs hU hd).1
   obtain ⟨k, hk⟩ := List.getElem?_of_mem hmem
@@ -538,7 +541,7 @@ example : Spec.Surface.topAt (Spec.Surface.layers true
     command; the newly selected item has height ≥ 1). -/
 theorem dyn_next_prev_visible_any_state (cfg : Cfg) (hs : List Nat) (hlen : hs.length < 2 ^ 63) (s : St) (W H : Nat)
     (hW : W ≠ 65535) (hH : H ≠ 65535) (hH1 : 1 ≤ H)
-    (ht : s.top < 2 ^ 63) (hcu : s.cursor < 2 ^ 63)
+    (ht : s.top < 2 ^ 63) (hcu : s.cursor < U)
     (s1 : St) (hmove : (nextItem hs s = (s1, true)) ∨ (prevItem hs s = (s1, true)))
     (hpos : ∀ h, hs[s1.cursor]? = some h → 1 ≤ h) :
     ∃ s' cs, draw genFacts cfg hs s1 W H = .ok (s', cs) ∧
